@@ -9,7 +9,7 @@ import ast
 from ..alg import Poly, Q, MQ, is_zero
 from ..elems import ElemLib
 from ..repo import AnalysisError, dotted, norm_text, FuncInfo
-from ..xeval import Interp, XObj, Opaque, _NpAttr, XRaise, Uninterpretable
+from ..xeval import Interp, XObj, Opaque, _NpAttr, XRaise, Uninterpretable, exact
 from ..xarray import XArray
 
 GE = "EasyFEA.FEM._group_elem._GroupElem"
@@ -393,6 +393,7 @@ def run(ctx):
     candidate_order_rule(ctx)
     ctx.attempt(inverse_map_rule, ctx, lib)
     ctx.attempt(motion_application_rule, ctx)
+    ctx.attempt(location_candidates_rule, ctx)
 
 
 def candidate_order_rule(ctx):
@@ -663,3 +664,94 @@ def motion_application_rule(ctx):
         r.ok("Translate: x + (dx, dy, dz)")
     else:
         r.fail(fT.qualname, "translate-application", fT.file, fT.lineno, "Translate", "the translation is not x + (dx, dy, dz) component by component")
+
+
+class _ExactKDTree:
+    """scipy.spatial.KDTree on exact coordinates: nearest neighbour and ball queries by exhaustive comparison"""
+
+    _xeval_open = True
+
+    def __init__(self, pts):
+        self.pts = XArray.from_nested(pts)
+
+    @staticmethod
+    def _d2(a, b):
+        return sum(((x - y) * (x - y) for x, y in zip(a, b)), Q(0))
+
+    def _rows(self, x):
+        x = XArray.from_nested(x)
+        if x.ndim == 1:
+            return [list(x.data)], True
+        n = x.shape[-1]
+        return [list(x.data[i * n: (i + 1) * n]) for i in range(x.size // n)], False
+
+    def query(self, x, k=1):
+        if k != 1:
+            raise AnalysisError("KDTree.query with k != 1 is not modelled")
+        rows, single = self._rows(x)
+        n = self.pts.shape[1]
+        P = [list(self.pts.data[i * n: (i + 1) * n]) for i in range(self.pts.shape[0])]
+        idx, dist = [], []
+        for r in rows:
+            best = min(range(len(P)), key=lambda i: (self._d2(r, P[i]), i))
+            idx.append(best)
+            dist.append(MQ.sqrt(self._d2(r, P[best])))
+        if single:
+            return dist[0], idx[0]
+        return XArray((len(rows),), dist), XArray((len(rows),), idx)
+
+    def query_ball_point(self, x, r):
+        rows, single = self._rows(x)
+        n = self.pts.shape[1]
+        P = [list(self.pts.data[i * n: (i + 1) * n]) for i in range(self.pts.shape[0])]
+        r = exact(r)
+        r2 = r * r
+        if isinstance(r2, MQ):
+            if not r2.is_rational():
+                raise AnalysisError("KDTree radius whose square is irrational")
+            r2 = r2.rational()
+        out = [[i for i in range(len(P)) if self._d2(row, P[i]) <= r2] for row in rows]
+        return out[0] if single else out
+
+
+def location_candidates_rule(ctx):
+    """R8.14: 'locating arbitrary points, singly or in batches': the candidate elements Get_Mapping searches when the
+    caller names none contain, for every query coordinate, the element that holds it.  _Get_nearby_elements and
+    _Get_nearby_nodes are interpreted on a two-triangle mesh with a stretched element (the closest node of a point of
+    the large triangle belongs to the flat neighbour only), one query point at a time, with an exact KD-tree."""
+    from ..xeval import exact as _exact
+
+    repo = ctx.repo
+    r = ctx.rule("R8.14", "point location: the default candidate set of Get_Mapping holds the element containing each query coordinate (stretched two-triangle mesh, single-point queries, exact KD-tree)", min_instances=5)
+    ge = repo.cls(GE)
+    f = ge.methods["_Get_nearby_elements"]
+    coord = XArray((4, 3), [Q(0), Q(0), Q(0), Q(10), Q(0), Q(0), Q(5), Q(3), Q(0), Q(5), Q(-1, 2), Q(0)])
+    connect = XArray((2, 3), [0, 1, 2, 0, 3, 1])
+    rows = [[0, 1, 2], [0, 3, 1]]
+
+    def elements_of(nodes, exclusively=True):
+        ns = set(int(_exact(v)) for v in (XArray.from_nested(nodes).data if not isinstance(nodes, int) else [nodes]))
+        return XArray.from_nested([e for e, c in enumerate(rows) if (set(c) <= ns if exclusively else set(c) & ns)] or [])
+
+    def hook(fn, args, kwargs):
+        if isinstance(fn, Opaque) and fn.tag.endswith(("spatial.KDTree", "spatial.cKDTree")):
+            return _ExactKDTree(args[0])
+        fi = fn if isinstance(fn, FuncInfo) else getattr(fn, "finfo", None)
+        if isinstance(fi, FuncInfo) and fi.name == "_CheckIsVector":
+            return None
+        return NotImplemented
+
+    for y, holder in ((Q(-2, 5), 1), (Q(1, 10), 0), (Q(2, 5), 0), (Q(1), 0), (Q(2), 0), (Q(14, 5), 0)):
+        r.instance(fn=f.qualname)
+        g = XObj(ge, {"coord": coord, "nodes": XArray((4,), [0, 1, 2, 3]), "connect": connect, "_global_to_local_nodes": XArray((4,), [0, 1, 2, 3]), "Nn": 4, "Ne": 2, "dim": 2, "inDim": 2, "Get_Elements_Nodes": elements_of})
+        g.attrs[ge.mangle("__connect")] = connect
+        g.attrs[ge.mangle("__coord")] = coord
+        I = Interp(repo)
+        I.call_hook = hook
+        q = XArray((1, 3), [Q(5), y, Q(0)])
+        out = I.call_function(f, [q], self_obj=g)
+        got = sorted(int(_exact(v)) for v in XArray.from_nested(out).data) if not isinstance(out, (int,)) else [int(out)]
+        if holder in got:
+            r.ok(f"point (5, {y}) alone: candidates {got} hold element {holder}")
+        else:
+            r.fail(f.qualname, "candidates", f.file, f.lineno, "_Get_nearby_elements", f"nodes A(0,0) B(10,0) C(5,3) D(5,-1/2), triangles ABC and ADB, single query point (5, {y}): it lies in element {holder} but the candidate elements are {got} (the closest node belongs to the other triangle only): the point is not located and the evaluated field is 0 there")
